@@ -1,6 +1,6 @@
 (* C11 Order integrity: immutable terms, shrinking remainders, no interference. *)
 From ATS Require Import Prelude Dec DecFacts Uuid Semver Types Contract Tactics Spec Inv InvAsk InstProofs AskProofs Frame Evolve Reach
-  BidFacts InvBid InvStep.
+  BidFacts InvBid InvStep InvCheck.
 
 (* frame: an accepted request leaves the version record alone, the configuration alone unless it is a
    configuration change, every ask it does not name and every bid it does not name exactly as they were
@@ -50,3 +50,10 @@ Proof.
   pose proof (Inv_reachable e m st0 r0 evs He Hi Hcl) as [_ HB]. eapply inv_bids; eauto.
 Qed.
 Print Assumptions C11_bids_consistent.
+
+(* The invariant behind "every order visible on the book is internally consistent" is decidable, and the decision
+   procedure is the one the extracted model runner evaluates on every state the implementation dumps (an `INV` line per
+   event in the model's trace): the hypothesis `Inv st` of the theorems is checked on the states real histories reach. *)
+Theorem C11_invariant_decided : forall st, inv_check st = true <-> Inv st.
+Proof. exact inv_check_iff. Qed.
+Print Assumptions C11_invariant_decided.
